@@ -62,7 +62,9 @@ static void run(Src &s) {
     GFile f = gen_file(s, o);
     std::string path = g_scr.dir + "/start.conf";
     write_file(path, f.text());
-    e = econf_readFile(&kf, path.c_str(), f.D.c_str(), f.C.c_str());
+    int via = (int)s.weighted({60, 0, 20, 10, 10});
+    if (via) g_case.tag("start_parsed_through_layered_read");
+    e = read_via(via, g_scr.dir, "start", f.D, f.C, &kf);
     m = f.model();
     log += "start file '" + esc(f.text()) + "' D='" + esc(f.D) + "'; ";
   } else {
